@@ -81,13 +81,13 @@ static CaseSpec genCase(uint64_t seed, uint64_t k, uint64_t nsteps) {
 	s.tool = (unsigned) rng.below(4);
 	if (k % 4 == 2) { // every fourth case (chosen by index so that the random stream of the other families is unchanged)
 		s.family = "ret";
-		s.retSeed = Rng(seed * 0x9E3779B97F4A7C15ull + k * 7919 + 1).next();
+		s.retSeed = Rng(vh::hashSeed(seed) + k * 7919 + 1).next();
 		s.perPartition = false;
 		return s;
 	}
 	if (k % 8 == 7) { // comparisons of literals with literals that constant propagation cannot fold (undefined bits)
 		s.family = "lit";
-		s.retSeed = Rng(seed * 0x9E3779B97F4A7C15ull + k * 104729 + 5).next();
+		s.retSeed = Rng(vh::hashSeed(seed) + k * 104729 + 5).next();
 		s.perPartition = false;
 		return s;
 	}
@@ -331,7 +331,7 @@ static std::string permuteNodes(hlim::Circuit &c, unsigned mode, uint64_t seed) 
 	auto &v = c.getNodes();
 	size_t n = v.size();
 	std::vector<hlim::BaseNode*> before; for (auto &p : v) before.push_back(p.get());
-	Rng r(seed * 0x9E3779B97F4A7C15ull + mode);
+	Rng r(vh::hashSeed(seed) + mode);
 	switch (mode) {
 		case 1: case 6: for (size_t i = n; i > 1; i--) std::swap(v[i - 1], v[r.below(i)]); break;
 		case 2: std::reverse(v.begin(), v.end()); break;
